@@ -478,6 +478,24 @@ func ruleC06Outermost(c *Ctx) {
 		leaves = false
 	}
 	c.R.Check(leaves, rule, "hit:first-wins", c.pos(hit), "the search stops at the first (outermost) hit", "the search continues after a hit: a later (inner) resource would override the outermost one")
+	// ... and only at a hit: a resource that declares the name as a plain anchor, or not at all, does not end it
+	if h := loopHeaderOf(lk.Block()); h != nil && hit.Parent() == lk.Parent() {
+		early := ""
+		for _, q := range lk.Parent().Blocks {
+			if q == h || !inLoopOf(h, q) {
+				continue
+			}
+			for _, sc := range q.Succs {
+				if inLoopOf(h, sc) || blockReturnsErrorDeepLocal(sc) {
+					continue
+				}
+				if q != hit.Block() && !hit.Block().Dominates(q) && sc != hit.Block() && !hit.Block().Dominates(sc) {
+					early = c.pos(q.Instrs[len(q.Instrs)-1])
+				}
+			}
+		}
+		c.R.Check(early == "", rule, "search:left-only-on-a-hit", c.pos(lk), "the search is left early only where a dynamic anchor was found", "the dynamic-scope search can be left (the exit at "+early+") at a stack entry that is not a hit: an outer resource that declares the name as a plain $anchor, or has an entry of another kind, ends the search, the resources further in are never asked and the lexical target is used")
+	}
 }
 
 func init() {
